@@ -130,6 +130,16 @@ func (ex *Exec) oblige(st *State, kind, name string, goal *Term, node ast.Node) 
 		t := true
 		o.Static = &t
 		o.Assumes = nil
+	} else {
+		for _, a := range st.pc {
+			if a == goal {
+				t := true
+				o.Static = &t
+				o.Assumes = nil
+				o.Note = "goal is one of the assumptions at this point"
+				break
+			}
+		}
 	}
 	ex.obls = append(ex.obls, o)
 }
@@ -162,6 +172,10 @@ func (ex *Exec) cellOf(obj types.Object) *Cell {
 // ---------- fresh symbolic values ----------
 
 func (ex *Exec) rangeInv(k *Kind, t *Term) *Term {
+	if ex.ct != nil && ex.ct.Opts["no-range-invariants"] != "" && k.K == "var" && t.Op == "select" {
+		// element-wise field-range facts about arrays of variables are not needed by bit-vector level proofs
+		return True
+	}
 	switch k.K {
 	case "var":
 		return And(Le(Zero, t), Lt(t, ex.P))
@@ -920,11 +934,22 @@ func (ex *Exec) checkPost(f *State, n int) {
 			for pi, pg := range parts {
 				ex.oblige(f, "post", fmt.Sprintf("post#%d.%d@ret%d", k, pi+1, n), pg, nil)
 				ex.obls[len(ex.obls)-1].Note = e.Text
+				ex.obls[len(ex.obls)-1].Group = fmt.Sprintf("%s/post#%d@ret%d%s", ex.fnName, k, n, ex.modeSuffix())
 			}
 			continue
 		}
 		ex.oblige(f, "post", fmt.Sprintf("post#%d@ret%d", k, n), goal, nil)
 		ex.obls[len(ex.obls)-1].Note = e.Text
+	}
+	// cover clauses: some return must be reachable with the condition true
+	for ci, cv := range ex.ct.Covers {
+		if cv.Mode != "" && cv.Mode != ex.mode {
+			continue
+		}
+		c := ce.evalBool(cv.Expr)
+		ex.obls = append(ex.obls, &Obligation{Name: fmt.Sprintf("%s/cover#%d@ret%d%s", ex.fnName, ci+1, n, ex.modeSuffix()), Prop: ex.ct.Props, Func: ex.fi.Key,
+			Kind: "canary", Mode: ex.mode, Assumes: append(append([]*Term{}, f.pc...), c), Goal: False, Canary: true, Reveal: ex.reveal, Lemmas: ex.lemmas,
+			Note: "cover: " + cv.Text})
 	}
 	// vacuity canary: the path condition at this return must be satisfiable
 	o := &Obligation{Name: fmt.Sprintf("%s/canary@ret%d%s", ex.fnName, n, ex.modeSuffix()), Prop: ex.ct.Props, Func: ex.fi.Key, Kind: "canary", Mode: ex.mode,
@@ -1596,8 +1621,26 @@ func (ex *Exec) ghostAsserts(states []*State, anchor string, pos token.Pos, node
 					return base(name)
 				}
 			}
+			if a.Kind == "snap" {
+				// ghost snapshot: the value of the expression at this point, under a name later clauses can use
+				s.store[ex.ghostCell(a.Var)] = ce.eval(a.Expr)
+				continue
+			}
 			g := ce.evalBool(a.Expr)
+			savedLem, savedRev := ex.lemmas, ex.reveal
+			if len(a.Lemmas) > 0 || len(a.Reveal) > 0 {
+				ex.lemmas = append(append([]string{}, ex.lemmas...), a.Lemmas...)
+				nr := map[string]bool{}
+				for k := range ex.reveal {
+					nr[k] = true
+				}
+				for _, r := range a.Reveal {
+					nr[r] = true
+				}
+				ex.reveal = nr
+			}
 			ex.oblige(s, "assert", fmt.Sprintf("assert@%s#L%d.%d", anchor, a.Line, i+1), g, node)
+			ex.lemmas, ex.reveal = savedLem, savedRev
 			ex.obls[len(ex.obls)-1].Note = a.Text
 			if !g.IsFalse() {
 				s.assume(g)
@@ -1789,6 +1832,7 @@ func (ex *Exec) execLoopInv(st *State, spec *LoopSpec, ord int, node ast.Node, c
 	if pre != nil {
 		pre(bs)
 	}
+	ex.ghostAsserts([]*State{bs}, fmt.Sprintf("loop%d.body", ord), pos, node)
 	savedOrd := ex.loopOrd
 	outs := ex.execBlock([]*State{bs}, body.List)
 	ex.loopOrd = savedOrd + ex.countLoops(body)
